@@ -149,6 +149,14 @@ def dumpstructs(ctx, n):
                 if ANSI.sub("", out2).split("\n\n", 1)[-1] != plain.split("\n\n", 1)[-1] and body == inp[:r[2]]:
                     ctx.violation("dumpstruct", "dumpstruct-class-form-differs-from-instance-form",
                                   engine.case_detail(case, cfg=cfgd, data=inp, color=color))
+                if not gen.has_eof(top) and body == inp[:r[2]]:
+                    # bytes after the structure are not part of it: the dump stays the dump of the structure's bytes
+                    out3 = dumpstruct(cs.T, inp[:r[2]] + b"TRAILING-BYTES-" * 2, output="string", color=color)
+                    ctx.event("dumpstruct_with_trailing_bytes")
+                    if ANSI.sub("", out3) != ANSI.sub("", out2):
+                        ctx.violation("dumpstruct", "dumpstruct-class-form-shows-bytes-after-the-structure",
+                                      engine.case_detail(case, cfg=cfgd, data=inp, color=color,
+                                                         got=ANSI.sub("", out3), want=ANSI.sub("", out2)))
             except Exception as e:  # noqa: BLE001
                 ctx.violation("dumpstruct", f"dumpstruct-class-form-raises:{type(e).__name__}",
                               engine.case_detail(case, cfg=cfgd, data=inp, color=color, error=lib.exc_sig(e)))
@@ -206,6 +214,26 @@ def packs(ctx, rng, n):
             except Exception as e:  # noqa: BLE001
                 ctx.violation("swap", f"swap-raises:{type(e).__name__}", {"value": v, "bits": bits,
                                                                           "error": lib.exc_sig(e)})
+    # widths that are not a whole number of bytes: pack rounds up to whole bytes, unpack must accept exactly those
+    for i in range(max(20, n // 20)):
+        bits = rng.choice([1, 3, 7, 9, 12, 15, 17, 20, 31, 33, 63, 65, 100])
+        signed = rng.random() < 0.5
+        lo, hi = (-(1 << (bits - 1)), (1 << (bits - 1)) - 1) if signed else (0, (1 << bits) - 1)
+        v = rng.choice([lo, hi, 0, rng.randint(lo, hi)])
+        sp, order = rng.choice(list(SPELLINGS.items()))
+        nbytes = (bits + 7) // 8
+        ctx.evaluation(("pack-odd-width", bits, v, sp))
+        ctx.cell("pack:odd-width")
+        try:
+            want = v.to_bytes(nbytes, order, signed=v < 0)
+            got = utils.pack(v, bits, sp)
+            back = utils.unpack(got, bits, sp, sign=v < 0)
+            if got != want or back != v:
+                ctx.violation("pack", "odd-width:pack-unpack-are-not-inverses",
+                              {"value": v, "bits": bits, "endian": sp, "got": got.hex(), "want": want.hex(), "back": back})
+        except Exception as e:  # noqa: BLE001
+            ctx.violation("pack", f"odd-width:pack-or-unpack-raises:{type(e).__name__}",
+                          {"value": v, "bits": bits, "endian": sp, "error": lib.exc_sig(e)})
     # wrong length must be refused
     for bits, raw in ((16, b"\x01"), (32, b"\x01\x02\x03"), (8, b"")):
         ctx.evaluation(("unpack-len", bits, raw))
